@@ -9,9 +9,10 @@ func (c *Conversation) processDisconnectedTLV(t tlv, x dataMessageExtra) (toSend
 	c.lastMessageStateChange = time.Time{}
 	c.msgState = finished
 	c.smp.wipe()
+	c.ake.wipe(true)
 	c.ake = nil
 
-	c.keys = keyManagementContext{}
+	c.keys.wipe()
 
 	return nil, nil
 }
